@@ -109,7 +109,8 @@ def buildAt (d : DState) (order : List Path) : Nat → Path → Forest
   | 0, _ => .nil
   | fuel + 1, p =>
     let kids := d.flats.filter fun f => f.path != [] && f.path.dropLast == p
-    let kids := sortBy (fun a b => rank order a.path < rank order b.path) kids
+    let ranked := kids.map fun f => (rank order f.path, f)
+    let kids := (sortBy (fun (a b : Nat × Flat) => a.1 < b.1) ranked).map (·.2)
     forestOf (kids.map fun f =>
       (f.path.getLast?.getD [],
        if f.ty == 'd' then Node.dir (f.md d) (buildAt d order fuel f.path)
@@ -320,7 +321,9 @@ def stepLine (d : DState) (op obs : String) : DState × String :=
     let t := buildTree d d.order
     let es := capture t
     (d, "W eof cwd=1" ++ String.join (es.map fun e => "|" ++ renderWalkEntry d es e))
-  | ["rt", fmt, flags, uid] =>
+  | ["rt", fmt0, flags, uid] =>
+    -- "<fmt>-seq": same archive, read back through a sequential source
+    let fmt := if fmt0.endsWith "-seq" then (fmt0.dropEnd 4).toString else fmt0
     let f := fmtOf fmt
     let o : Opts := { root := uid == "0", perm := hasFlag flags 'p', time := hasFlag flags 't',
                       umask := 0o022, sameOwner := uid == "0" }
